@@ -19,6 +19,8 @@ def make_item(rng, ncalls):
     objs = {}
     for i in range(4):
         objs["s%d" % i] = [[rng.choice(vals)] for _ in range(L if equal else rng.randint(2, 5))]
+    # one series that is longer than the members of an equal-length collection (a DBA centre of another length)
+    objs["s4"] = [[rng.choice(vals)] for _ in range(L + rng.choice([1, 2]))]
     for i in range(2):
         objs["m%d" % i] = [list(rng.choice(P2)) for _ in range(rng.randint(2, 4))]
     objs["col"] = {"col": ["s0", "s1", "s2", "s3"], "elem": rng.choice(["list", "array", "numpy"])}
@@ -63,6 +65,9 @@ def make_item(rng, ncalls):
             rt = rng.choice(["dtw.distance_matrix", "dtw.distance_matrix_fast"])
             kind = rng.choice(["col_list", "col_tuple", "col_container"] + (["col_2d"] if equal else []))
             name = "col" if (rt == "dtw.distance_matrix" and kind != "col_2d") else "colnp"
+            if rng.random() < 0.4:
+                # relaxation on one series only: d(a, b) != d(b, a), so the (row, column) roles matter
+                opts = dict(opts, psi=rng.choice([[1, 0, 0, 0], [0, 0, 1, 0], [0, 1, 0, 0], [1, 1, 0, 0]]))
             calls.append({"routine": rt, "args": [name], "kinds": [kind], "opts": opts,
                           "parallel": rng.random() < 0.3,
                           "nonumpy_ok": rt == "dtw.distance_matrix" and kind in ("col_list", "col_tuple")
@@ -70,7 +75,8 @@ def make_item(rng, ncalls):
         elif r < 0.74:
             kind = rng.choice(["col_list", "col_container"] + (["col_2d"] if equal else []))
             use_c = rng.random() < 0.5
-            calls.append({"routine": rng.choice(["dba", "dba_loop"]), "args": ["colnp", a], "kinds": [kind, "numpy"],
+            calls.append({"routine": rng.choice(["dba", "dba_loop"]), "args": ["colnp", rng.choice([a, "s4"])],
+                          "kinds": [kind, "numpy"],
                           "opts": opts, "use_c": use_c})
         elif r < 0.82:
             calls.append({"routine": "subsequence_search", "args": [a, "colnp"], "kinds": ["numpy", "col_list"],
@@ -110,6 +116,9 @@ def make_item(rng, ncalls):
             c0["kinds"] = [rng.choice(K1C if c_engine else ["list", "array", "numpy", "numpy_strided"]) for _ in c0["kinds"]]
         elif rt == "subsequence_alignment":
             c0["kinds"] = ["numpy", rng.choice(["numpy", "numpy_strided", "numpy_strided"])]
+        elif rt in ("dba", "dba_loop"):
+            # same engine, the collection in another container (list of arrays / SeriesContainer / one 2-D array)
+            c0["kinds"] = [rng.choice(["col_list", "col_container"] + (["col_2d"] if equal else [])), "numpy"]
         calls.append(c0)
     return {"objs": objs, "dicts": dicts, "calls": calls}
 
@@ -125,7 +134,7 @@ def items(ctx):
 
 RULE = ("model: Purity.tla (store unchanged by every call, results functional in the content) with a sensitivity "
         "self-test (a routine that normalises its argument in place is refuted). implementation: seeded histories of 4-8 "
-        "calls over shared objects (4 univariate and 2 bivariate series, two collections, one settings dictionary) drawn "
+        "calls over shared objects (5 univariate and 2 bivariate series, two collections, one settings dictionary) drawn "
         "from 20 routines (distance, bounds, cost matrix, path, warp, distance matrix, DBA, subsequence search / alignment, "
         "hierarchical and k-means clustering; both engines) with the container kind re-drawn per call (list, tuple, "
         "array('d'), ndarray, strided / negative-stride / F-ordered / transposed views, list / tuple of arrays, 2-D "
